@@ -82,7 +82,7 @@ def run(c):
                     plans.append((wl, iters, e, 'partial', k, refs, final))
                 # the write fails (disk full) after 0 / half / all but one of its bytes; the process goes on and is killed when the next
                 # iteration has been computed (or ends normally after the last one)
-                for k in sorted({0, n // 2, max(n - 1, 0)}):
+                for k in (ks if c.tier == 'thorough' else sorted({0, n // 2, max(n - 1, 0)})):
                     plans.append((wl, iters, e, 'fail', k, refs, final))
     if c.tier == 'thorough':
         _strace_crosscheck(c, app, so, info)
